@@ -1,6 +1,8 @@
 //! child of `color` (appended `mod` line in the scratch copy): reaches the private DisplayBuffer.
 #![allow(dead_code, unused_imports, missing_docs, unreachable_pub, clippy::all)]
 use super::*;
+use crate::verif_kani::spec_sgr::*;
+use crate::verif_kani::util::{ansi_from_index, mcolor, mcolor_underline};
 use crate::verif_kani::vk;
 
 /// write_code appends the 1-3 ASCII digits of `code` (leading zeros allowed) and nothing else
@@ -42,24 +44,8 @@ fn render_write_code_all() {
     vk::vk_cover!(code >= 100 && len == DISPLAY_BUFFER_CAPACITY - 3, "three digits at the capacity edge");
 }
 
-/// every colour buffer fits the 19 bytes, is ASCII, and as_str() is exactly its content
-#[cfg_attr(kani, kani::proof)]
-#[cfg_attr(not(kani), test)]
-fn render_buffer_capacity() {
-    let c = crate::verif_kani::util::any_color();
-    let slot = vk::any_u8_in(0, 2);
-    let buf = match (c, slot) {
-        (Color::Ansi(c), 0) => c.as_fg_buffer(),
-        (Color::Ansi(c), 1) => c.as_bg_buffer(),
-        (Color::Ansi(c), _) => c.as_underline_buffer(),
-        (Color::Ansi256(c), 0) => c.as_fg_buffer(),
-        (Color::Ansi256(c), 1) => c.as_bg_buffer(),
-        (Color::Ansi256(c), _) => c.as_underline_buffer(),
-        (Color::Rgb(c), 0) => c.as_fg_buffer(),
-        (Color::Rgb(c), 1) => c.as_bg_buffer(),
-        (Color::Rgb(c), _) => c.as_underline_buffer(),
-    };
-    assert!(buf.len <= DISPLAY_BUFFER_CAPACITY, "colour code fits the display buffer");
+fn check_buffer(buf: DisplayBuffer, want: MStyle) {
+    assert!(buf.len <= DISPLAY_BUFFER_CAPACITY, "colour code fits the 19-byte display buffer");
     let mut i = 0;
     while i < DISPLAY_BUFFER_CAPACITY {
         if i < buf.len {
@@ -67,6 +53,93 @@ fn render_buffer_capacity() {
         }
         i += 1;
     }
+    let got = sgr_bytes(M_DEFAULT, &buf.buffer, buf.len, false);
+    assert!(got == Pure::Ok(want), "the colour code is pure SGR and interprets to exactly that colour in that slot");
     assert!(buf.as_str().len() == buf.len, "as_str covers exactly the written bytes");
+}
+
+fn slot_style(slot: u8, c: MColor) -> MStyle {
+    let mut m = M_DEFAULT;
+    if slot == 0 { m.fg = c; } else if slot == 1 { m.bg = c; } else { m.ul = c; }
+    m
+}
+
+/// 16-colour values in all three slots (all 48 cases)
+#[cfg_attr(kani, kani::proof, kani::unwind(21))]
+#[cfg_attr(not(kani), test)]
+fn render_buffer_ansi() {
+    let i = vk::any_u8_in(0, 15);
+    let c = ansi_from_index(i);
+    let slot = vk::any_u8_in(0, 2);
+    let buf = if slot == 0 { c.as_fg_buffer() } else if slot == 1 { c.as_bg_buffer() } else { c.as_underline_buffer() };
+    // an underline colour of the 16-colour palette comes back as the same 256-colour index
+    let want = slot_style(slot, if slot == 2 { MColor::Idx(i) } else { MColor::Ansi(i) });
+    check_buffer(buf, want);
+}
+
+/// 256-colour indices in all three slots (all 768 cases)
+#[cfg_attr(kani, kani::proof, kani::unwind(21))]
+#[cfg_attr(not(kani), test)]
+fn render_buffer_ansi256() {
+    let i = vk::any_u8();
+    let c = Ansi256Color(i);
+    let slot = vk::any_u8_in(0, 2);
+    let buf = if slot == 0 { c.as_fg_buffer() } else if slot == 1 { c.as_bg_buffer() } else { c.as_underline_buffer() };
+    check_buffer(buf, slot_style(slot, MColor::Idx(i)));
+}
+
+/// RGB colours (all 2^24) per slot
+fn buffer_rgb(slot: u8) {
+    let c = RgbColor(vk::any_u8(), vk::any_u8(), vk::any_u8());
+    let buf = if slot == 0 { c.as_fg_buffer() } else if slot == 1 { c.as_bg_buffer() } else { c.as_underline_buffer() };
+    check_buffer(buf, slot_style(slot, MColor::Rgb(c.0, c.1, c.2)));
     vk::vk_cover!(buf.len == DISPLAY_BUFFER_CAPACITY, "longest code reaches the capacity");
+}
+
+#[cfg_attr(kani, kani::proof, kani::unwind(21))]
+#[cfg_attr(not(kani), test)]
+fn render_buffer_rgb_fg() {
+    buffer_rgb(0);
+}
+
+#[cfg_attr(kani, kani::proof, kani::unwind(21))]
+#[cfg_attr(not(kani), test)]
+fn render_buffer_rgb_bg() {
+    buffer_rgb(1);
+}
+
+#[cfg_attr(kani, kani::proof, kani::unwind(21))]
+#[cfg_attr(not(kani), test)]
+fn render_buffer_rgb_underline() {
+    buffer_rgb(2);
+}
+
+/// Color's render/write entry points select the buffer of the matching kind and slot,
+/// and the io::Write path writes exactly the buffer (symbolic colour, no formatting machinery)
+#[cfg_attr(kani, kani::proof, kani::unwind(21))]
+#[cfg_attr(not(kani), test)]
+fn render_color_write_paths() {
+    let c = crate::verif_kani::util::any_color();
+    let slot = vk::any_u8_in(0, 2);
+    let want = match (c, slot) {
+        (Color::Ansi(x), 0) => x.as_fg_buffer(),
+        (Color::Ansi(x), 1) => x.as_bg_buffer(),
+        (Color::Ansi(x), _) => x.as_underline_buffer(),
+        (Color::Ansi256(x), 0) => x.as_fg_buffer(),
+        (Color::Ansi256(x), 1) => x.as_bg_buffer(),
+        (Color::Ansi256(x), _) => x.as_underline_buffer(),
+        (Color::Rgb(x), 0) => x.as_fg_buffer(),
+        (Color::Rgb(x), 1) => x.as_bg_buffer(),
+        (Color::Rgb(x), _) => x.as_underline_buffer(),
+    };
+    let mut out: crate::verif_kani::util::Buf<24> = crate::verif_kani::util::Buf::new();
+    let r = if slot == 0 { c.write_fg_to(&mut out) } else if slot == 1 { c.write_bg_to(&mut out) } else { c.write_underline_to(&mut out) };
+    assert!(r.is_ok() && !out.overflow && out.len == want.len, "the io::Write path writes the colour buffer");
+    let mut i = 0;
+    while i < DISPLAY_BUFFER_CAPACITY {
+        if i < want.len {
+            assert!(out.b[i] == want.buffer[i], "the io::Write path writes exactly the bytes of the colour buffer");
+        }
+        i += 1;
+    }
 }
